@@ -8,7 +8,10 @@
     - Refutations: the hash function matters for idempotent re-commits
       ([recommit_colliding_hash_refuted]), the label must be dropped by
       LoadVersionForOverwriting even when the index is off ([drop_label_refuted]), the index
-      must be rebuilt from the LATEST version ([rebuild_from_loaded_refuted]). *)
+      must be rebuilt from the LATEST version ([rebuild_from_loaded_refuted], and
+      [rebuild_from_loaded_unobservable] for why the model's own operations cannot show it).
+    - FastLifeFacts4 discharges the hypothesis [save_honest] for a collision-free hash function
+      ([recommit_honest_or_collision], [frun_logical_collision_free]). *)
 From Coq Require Import Lia.
 From IAVL Require Import Bytes Varint Sha256 Tree VMap TreeFacts MTree MTreeFacts VersionFacts
   Store StoreFacts FastLife FastLifeFacts1 FastLifeFacts2 FastLifeFacts3.
@@ -172,13 +175,35 @@ Proof.
     destruct (mfind bcmp k (adds st)) as [[e v]|]; reflexivity.
 Qed.
 
+Definition is_openat (o : fop) : bool := match o with FOpenAt _ _ => true | _ => false end.
+
+(** the load of a new tree object succeeds *)
+Definition openat_ok (st : fstate) (o : fop) : Prop :=
+  match o with
+  | FOpenAt _ v => snd (do_load (fresh_ms (ms st)) v) <> XErr
+  | _ => True
+  end.
+
+(** what the caller sees of the logical outputs: the Load() MTree performs before the
+    LoadVersion of a new tree object is not an operation of the caller *)
+Fixpoint visible (ops : list fop) (xs : list out) : list out :=
+  match ops with
+  | [] => []
+  | o :: rest =>
+      match o with
+      | FOpenAt _ _ => match xs with _ :: x :: xs' => x :: visible rest xs' | _ => [] end
+      | _ => match xs with x :: xs' => x :: visible rest xs' | [] => [] end
+      end
+  end.
+
 Section Main.
   Variable H : bytes -> bytes.
 
   (** ** The logical state is untouched by the index machinery *)
-  Lemma fstep_ms st o : ms (fst (fstep H st o)) = fst (step H (ms st) (logical o)).
+  Lemma fstep_ms st o :
+    is_openat o = false -> ms (fst (fstep H st o)) = fst (step H (ms st) (logical o)).
   Proof.
-    destruct o; cbn [fstep logical].
+    intros NO. destruct o; cbn [fstep logical]; cbn [is_openat] in NO.
     - destruct (step H (ms st) (OSet k v)) as [s' x]. destruct (skipf st); reflexivity.
     - destruct (step H (ms st) (ORemove k)) as [s' x]. cbn [fst].
       destruct x as [| | | | | | |a b]; try reflexivity.
@@ -191,6 +216,7 @@ Section Main.
       cbn [with_ms skipf]. destruct (skipf st); reflexivity.
     - destruct (step H (ms st) OReopen) as [s' x]. cbn [fst].
       destruct x; try reflexivity. apply enable_ms.
+    - discriminate NO.
     - destruct (step H (ms st) (OLoad v)) as [s' x]. cbn [fst].
       destruct x; try reflexivity. destruct (forest (ms st)); rewrite enable_ms; [reflexivity|].
       unfold clear_unsaved. cbn [with_ms skipf]. destruct (skipf st); reflexivity.
@@ -209,15 +235,17 @@ Section Main.
 
   (** ** The answers are the logical ones *)
   Lemma fstep_out st o :
+    is_openat o = false ->
     state_inv (ms st) -> contig (ms st) -> fcoh st ->
     snd (fstep H st o) = snd (step H (ms st) (logical o)).
   Proof.
-    intros I C Co. destruct o; cbn [fstep logical].
+    intros NO I C Co. destruct o; cbn [fstep logical]; cbn [is_openat] in NO.
     - destruct (step H (ms st) (OSet k v)) as [s' x]. reflexivity.
     - destruct (step H (ms st) (ORemove k)) as [s' x]. reflexivity.
     - destruct (step H (ms st) OSave) as [s' x]. reflexivity.
     - destruct (step H (ms st) ORollback) as [s' x]. reflexivity.
     - destruct (step H (ms st) OReopen) as [s' x]. reflexivity.
+    - discriminate NO.
     - destruct (step H (ms st) (OLoad v)) as [s' x]. reflexivity.
     - cbn [step]. unfold do_lvfo. destruct (do_load (ms st) v) as [s1 x1].
       destruct x1; reflexivity.
@@ -265,21 +293,86 @@ Section Main.
       rewrite (iv_vals _ _ (idx_valid_on st Co Sk)), (ltree_lookup _ _ L). reflexivity.
   Qed.
 
-  (** THE MAIN THEOREM (the usage contract is not even needed for one step: it is what keeps
-      the state coherent, [fcoh_step]) *)
+  (** ** A new tree object that loads a version directly *)
+  Lemma fstep_openat st skip v :
+    ms (fst (fstep H st (FOpenAt skip v))) = fst (do_load (fresh_ms (ms st)) v) /\
+    snd (fstep H st (FOpenAt skip v)) = snd (do_load (fresh_ms (ms st)) v).
+  Proof.
+    cbn [fstep step].
+    change (MState None 0 None (forest (ms st)) (init_ver (ms st)) (init_opt (ms st))
+                   (init_opt (ms st))) with (fresh_ms (ms st)).
+    destruct (do_load (fresh_ms (ms st)) v) as [s' x]. cbn [fst snd]. split; [|reflexivity].
+    destruct x; try reflexivity. apply enable_ms.
+  Qed.
+
+  (** (b) when the load succeeds the state is the one MTree reaches by [OReopen; OLoad v] and
+      the answer is the last answer of that run *)
+  Theorem fstep_logical_openat st skip v :
+    contig (ms st) -> snd (do_load (fresh_ms (ms st)) v) <> XErr ->
+    ms (fst (fstep H st (FOpenAt skip v))) = fst (run H (ms st) [OReopen; OLoad v]) /\
+    snd (fstep H st (FOpenAt skip v)) = last (snd (run H (ms st) [OReopen; OLoad v])) XErr.
+  Proof.
+    intros C Ok. destruct (fstep_openat st skip v) as [E1 E2].
+    destruct (openat_logical H (ms st) v C) as [A B]. rewrite E1, E2. split; [apply B, Ok|exact A].
+  Qed.
+
+  (** when the load fails the answer is still MTree's ([XErr]), but the object stays unloaded:
+      its logical state is [fresh_ms], not the state after [OReopen; OLoad v] (where the
+      failed load leaves the latest version loaded); the label has not been compared with the
+      store *)
+  Theorem fstep_openat_error st skip v :
+    contig (ms st) -> snd (do_load (fresh_ms (ms st)) v) = XErr ->
+    fstep H st (FOpenAt skip v) =
+      (FS (fresh_ms (ms st)) (fidx st) (dlabel st) (dlabel st) skip [] [], XErr) /\
+    last (snd (run H (ms st) [OReopen; OLoad v])) XErr = XErr /\
+    fst (run H (ms st) [OReopen; OLoad v]) = fst (step H (ms st) OReopen).
+  Proof.
+    intros C E. split; [apply openat_error, E|].
+    destruct (openat_logical H (ms st) v C) as [A _]. rewrite <- A. split; [exact E|].
+    cbn [run step]. destruct (do_reopen_spec (ms st) (contig_forest_ok _ C))
+      as [(F & Er)|(NE & r & L & Er)]; rewrite Er.
+    - unfold fresh_ms in E. rewrite F in E.
+      destruct (do_load_cases (MState None 0 None [] (init_ver (ms st)) (init_opt (ms st))
+                                      (init_opt (ms st))) v) as [E1|[(_ & _ & E1)|(tv & r & _ & E1)]];
+        rewrite E1 in *; cbn [snd] in E; try discriminate E. reflexivity.
+    - destruct (do_load_fresh (forest (ms st)) (init_ver (ms st)) (init_opt (ms st))
+                  (init_opt (ms st)) r (latest_version (ms st)) v NE) as [A' _].
+      unfold fresh_ms in E. rewrite A' in E.
+      destruct (do_load_cases (MState r (latest_version (ms st)) r (forest (ms st))
+                  (init_ver (ms st)) (init_opt (ms st)) (init_opt (ms st))) v)
+        as [E1|[(_ & _ & E1)|(tv & r' & _ & E1)]];
+        rewrite E1 in *; cbn [snd] in E; try discriminate E. reflexivity.
+  Qed.
+
+  (** THE MAIN THEOREM, for the operations of an open tree object (the usage contract is not
+      even needed for one step: it is what keeps the state coherent, [fcoh_step]) *)
   Theorem fstep_logical_any st o :
+    is_openat o = false ->
     state_inv (ms st) -> contig (ms st) -> fcoh st ->
     ms (fst (fstep H st o)) = fst (step H (ms st) (logical o)) /\
     snd (fstep H st o) = snd (step H (ms st) (logical o)).
   Proof.
-    intros I C Co. split; [apply fstep_ms|apply fstep_out; assumption].
+    intros NO I C Co. split; [apply fstep_ms, NO|apply fstep_out; assumption].
   Qed.
 
+  Lemma run_single s x : run H s [x] = (fst (step H s x), [snd (step H s x)]).
+  Proof. rewrite run_cons. reflexivity. Qed.
+
+  Lemma logical_ops_single o : is_openat o = false -> logical_ops o = [logical o].
+  Proof. destruct o; cbn [is_openat]; try discriminate; reflexivity. Qed.
+
+  (** THE MAIN THEOREM, every operation: the logical state is the one MTree reaches by
+      [logical_ops o] and the answer is MTree's (last) answer *)
   Theorem fstep_logical st o :
     state_inv (ms st) -> contig (ms st) -> fin_contract H st o -> fcoh st ->
-    ms (fst (fstep H st o)) = fst (step H (ms st) (logical o)) /\
-    snd (fstep H st o) = snd (step H (ms st) (logical o)).
-  Proof. intros I C _ Co. apply fstep_logical_any; assumption. Qed.
+    ms (fst (fstep H st o)) = fst (run H (ms st) (logical_ops o)) /\
+    snd (fstep H st o) = last (snd (run H (ms st) (logical_ops o))) XErr.
+  Proof.
+    intros I C [_ FC] Co. destruct (is_openat o) eqn:NO.
+    - destruct o; try discriminate NO. cbn [logical_ops]. apply fstep_logical_openat; assumption.
+    - rewrite (logical_ops_single o NO), run_single. cbn [fst snd last].
+      apply fstep_logical_any; assumption.
+  Qed.
 
   (** ** Histories *)
   Fixpoint frun_ok (st : fstate) (ops : list fop) : Prop :=
@@ -297,6 +390,11 @@ Section Main.
     destruct (frun H s1 ops) as [s2 xs]. reflexivity.
   Qed.
 
+  Lemma logical_ops_ok st o : fin_contract H st o -> run_ok H (ms st) (logical_ops o).
+  Proof.
+    intros [IC _]. destruct o; cbn [logical_ops logical run_ok in_contract] in *; auto.
+  Qed.
+
   (** all four invariants travel together along a history in contract *)
   Record fgood (st : fstate) : Prop := FGood {
     fg_inv : state_inv (ms st);
@@ -306,25 +404,35 @@ Section Main.
 
   Lemma fgood_step st o : fgood st -> fin_contract H st o -> fgood (fst (fstep H st o)).
   Proof.
-    intros [I C Co] FC. constructor.
-    - rewrite fstep_ms. apply step_inv, I.
-    - rewrite fstep_ms. apply step_contig; [exact C|apply FC].
+    intros [I C Co] FC. destruct (fstep_logical st o I C FC Co) as [M _]. constructor.
+    - rewrite M. apply run_inv, I.
+    - rewrite M. apply run_contig; [exact C|apply logical_ops_ok, FC].
     - apply fcoh_step; assumption.
   Qed.
 
+  Lemma visible_cons o ops s xs :
+    visible (o :: ops) (snd (run H s (logical_ops o)) ++ xs) =
+    last (snd (run H s (logical_ops o))) XErr :: visible ops xs.
+  Proof.
+    destruct o; cbn [logical_ops]; rewrite ?run_single; try reflexivity.
+    rewrite run_cons, run_single. reflexivity.
+  Qed.
+
+  (** (c) the lift: the logical history is the concatenation of [logical_ops]; every
+      [FOpenAt] of the history succeeds (part of [fin_contract]) *)
   Theorem frun_logical_from ops : forall st,
     fgood st -> frun_ok st ops ->
     fgood (fst (frun H st ops)) /\
-    ms (fst (frun H st ops)) = fst (run H (ms st) (map logical ops)) /\
-    snd (frun H st ops) = snd (run H (ms st) (map logical ops)).
+    ms (fst (frun H st ops)) = fst (run H (ms st) (concat (map logical_ops ops))) /\
+    snd (frun H st ops) = visible ops (snd (run H (ms st) (concat (map logical_ops ops)))).
   Proof.
     induction ops as [|o ops IH]; intros st G R.
-    - cbn [frun run map fst snd]. auto.
+    - cbn [frun run map concat visible fst snd]. auto.
     - destruct R as [FC R]. pose proof (fgood_step st o G FC) as G1.
       destruct (IH _ G1 R) as (G2 & E1 & E2).
-      destruct (fstep_logical_any st o (fg_inv st G) (fg_contig st G) (fg_coh st G)) as [M X].
-      rewrite frun_cons. cbn [map]. rewrite run_cons. cbn [fst snd].
-      rewrite <- M, <- X. auto using f_equal.
+      destruct (fstep_logical st o (fg_inv st G) (fg_contig st G) FC (fg_coh st G)) as [M X].
+      rewrite frun_cons. cbn [map concat]. rewrite run_app. cbn [fst snd].
+      rewrite visible_cons, <- M, <- X, <- E1, <- E2. auto.
   Qed.
 
   Lemma fgood_finit iv b : init_ok iv b -> fgood (finit iv b).
@@ -346,13 +454,13 @@ Section Main.
     let st0 := fst (fstep H (finit iv b) (FOpen skip0)) in
     frun_ok st0 ops ->
     ms st0 = fst (step H (init_state iv b) OReopen) /\
-    ms (fst (frun H st0 ops)) = fst (run H (ms st0) (map logical ops)) /\
-    snd (frun H st0 ops) = snd (run H (ms st0) (map logical ops)) /\
+    ms (fst (frun H st0 ops)) = fst (run H (ms st0) (concat (map logical_ops ops))) /\
+    snd (frun H st0 ops) = visible ops (snd (run H (ms st0) (concat (map logical_ops ops)))) /\
     fcoh (fst (frun H st0 ops)).
   Proof.
-    intros IO st0 R. split; [exact (fstep_ms (finit iv b) (FOpen skip0))|].
+    intros IO st0 R. split; [exact (fstep_ms (finit iv b) (FOpen skip0) eq_refl)|].
     destruct (frun_logical_from ops st0 (fgood_opened iv b skip0 IO) R) as (G & E1 & E2).
-    split; [exact E1|]. split; [exact E2|apply G].
+    split; [exact E1|]. split; [exact E2|exact (fg_coh _ G)].
   Qed.
 
   (** the same, counting the opening step: the whole history against MTree from [init_state] *)
@@ -360,14 +468,13 @@ Section Main.
     init_ok iv b ->
     frun_ok (fst (fstep H (finit iv b) (FOpen skip0))) ops ->
     snd (frun H (finit iv b) (FOpen skip0 :: ops)) =
-    snd (run H (init_state iv b) (map logical (FOpen skip0 :: ops))).
+    visible (FOpen skip0 :: ops)
+      (snd (run H (init_state iv b) (concat (map logical_ops (FOpen skip0 :: ops))))).
   Proof.
-    intros IO R. destruct (frun_logical iv b skip0 ops IO R) as (E0 & _ & E2 & _).
-    destruct (fgood_finit iv b IO) as [I0 C0 Co0].
-    pose proof (fstep_out (finit iv b) (FOpen skip0) I0 C0 Co0) as X0.
-    cbn [logical] in X0. change (ms (finit iv b)) with (init_state iv b) in X0.
-    rewrite frun_cons. cbn [map logical]. rewrite run_cons. cbn [snd].
-    rewrite X0, E2, E0. reflexivity.
+    intros IO R.
+    destruct (frun_logical_from (FOpen skip0 :: ops) (finit iv b) (fgood_finit iv b IO))
+      as (_ & _ & E); [|exact E].
+    split; [split; exact Logic.I|exact R].
   Qed.
 
   (** ** Executable contract check (for the examples) *)
@@ -405,13 +512,18 @@ Section Main.
 
   Definition fin_contractb (st : fstate) (o : fop) : bool :=
     in_contractb (ms st) (logical o) &&
-    match o with FSave => save_honestb (ms st) | _ => true end.
+    match o with
+    | FSave => save_honestb (ms st)
+    | FOpenAt _ v => negb (is_err (snd (do_load (fresh_ms (ms st)) v)))
+    | _ => true
+    end.
 
   Lemma fin_contractb_sound st o : fin_contractb st o = true -> fin_contract H st o.
   Proof.
     unfold fin_contractb, fin_contract. intros B. apply andb_true_iff in B. destruct B as [B1 B2].
     split; [apply in_contractb_iff, B1|]. destruct o; try exact Logic.I.
-    apply save_honestb_sound, B2.
+    - apply save_honestb_sound, B2.
+    - destruct (snd (do_load (fresh_ms (ms st)) v)); try discriminate; discriminate B2.
   Qed.
 
   Fixpoint frun_okb (st : fstate) (ops : list fop) : bool :=
@@ -697,7 +809,9 @@ Proof.
   destruct (frun_logical_from sha256 ops_example (st_on sha256)
               (fgood_opened sha256 0 false false ltac:(unfold init_ok; lia))
               (frun_okb_sound sha256 _ _ (proj2 example_in_contract))) as (G & _ & _).
-  split; [apply G|]. apply fcoh_step; try apply G. split; exact Logic.I.
+  split; [exact (fg_coh _ G)|].
+  apply fcoh_step; [exact (fg_inv _ G)|exact (fg_contig _ G)| |exact (fg_coh _ G)].
+  split; exact Logic.I.
 Qed.
 
 (** the answers computed through the index agree with MTree on the whole history, by
